@@ -109,7 +109,8 @@ pub fn all_trees() -> Vec<TreeSpec> {
     let mut out = vec![];
     for (i, a) in tops.iter().enumerate() {
         for (j, b) in tops.iter().enumerate() {
-            out.push(TreeSpec { top: [*a, *b], flavour: ((i * 7 + j * 3) % 4) as u8 });
+            // bit 4 (every third tree): bystanders whose names merely begin with the namespace's names
+            out.push(TreeSpec { top: [*a, *b], flavour: ((i * 7 + j * 3) % 4) as u8 | if (i + 2 * j) % 3 == 0 { 4 } else { 0 } });
         }
     }
     out
@@ -157,6 +158,15 @@ pub fn build(t: &TreeSpec) -> Memfs {
             } else if m.is_file(p) {
                 let _ = m.chmod_b(p).and_then(|b| b.all(0o604).no_recurse().exec());
             }
+        }
+    }
+    if t.flavour & 4 == 4 {
+        // prefix-named bystanders: /ab (directory with a file), /a-old (file), and /a/ab next to /a/a when /a is a directory
+        let _ = m.mkdir_p("/ab");
+        let _ = m.write_all("/ab/keep", b"bystander");
+        let _ = m.write_all("/a-old", b"bystander-2");
+        if m.is_dir("/a") {
+            let _ = m.write_all("/a/ab", b"bystander-3");
         }
     }
     if t.flavour & 2 == 2 {
@@ -410,6 +420,20 @@ pub fn check_copy(case: &CopyCase) -> CaseResult {
                 return fail("follow-copy-invented-entry", format!("{:?} appeared below the destination but nothing of that name existed when the call started", k));
             }
         }
+        // ... and with the permissions of something of their kind that was there (a followed link is copied as what
+        // it points to: never with the link's own 0o777). Trees in which a link points to a link are left out
+        // (how a chain is followed is not specified)
+        let chain = pre.nodes.values().any(|n| matches!(n, Node::Link { target, .. } if pre.kind(target) == Some(Kind::Link)));
+        if !chain {
+            for (k, n) in &post.nodes {
+                if !pre.nodes.contains_key(k) && is_under(k, &base) && n.kind() != Kind::Link {
+                    let known = pre.nodes.values().any(|m| m.kind() == n.kind() && m.mode() == n.mode());
+                    if !known {
+                        return fail("follow-copy-invented-mode", format!("{:?} was created as {:?} with mode {:o}; nothing of that kind had that mode when the call started", k, n.kind(), n.mode()));
+                    }
+                }
+            }
+        }
         return Ok(());
     }
     if s == d || base == s {
@@ -476,7 +500,7 @@ pub fn check_copy(case: &CopyCase) -> CaseResult {
 }
 
 pub fn run(c: &Ctx) {
-    c.set_rule("exhaustive: every tree over the namespace {/a,/b} x {a,b} where each top-level slot is missing / file / link (to /a,/b,/a/a,/nope,/b/b) / directory with two children each missing / file / dir / link (3025 trees; every fourth gets non-default modes, owners or both), materialised on a fresh Memfs; x every ordered (src,dst) pair of 12 paths (the namespace, root, missing names, a missing parent, deeper-than-namespace) x {copy, copy+chmod_all, +chmod_dirs, +chmod_files, +follow, move_p, chmod_files-then-chmod_all, chmod_all-then-chmod_dirs (the later option replaces the earlier)}. quick: a seeded 1/3 of the trees, thorough: all (3.5 M cases); a seeded 1/40 (quick) / 1/12 (thorough) of the cases whose arguments do not pass through a link also runs through Stdfs on a tmpfs copy of the tree (materialised and observed with std::fs), same predicates. Oracle: postcondition predicates on the dump before/after (DESIGN section 4 C09): source untouched, every source entry has a copy at the same relative path with same kind/bytes/link target, new entries carry the source mode unless the chmod option selects their kind, existing entries kept, nothing outside the destination changes (except created ancestors); move: source gone, destination == former subtree (modes, owners, bytes, link text; relative links resolve from the new location), rest unchanged, failed move changes nothing; C03 invariants; call returns. Non-trivial = src exists and (dst exists or src/dst nested or an option is set); distinct by (tree, src, dst, variant).");
+    c.set_rule("exhaustive: every tree over the namespace {/a,/b} x {a,b} where each top-level slot is missing / file / link (to /a,/b,/a/a,/nope,/b/b) / directory with two children each missing / file / dir / link (3025 trees; every fourth gets non-default modes, owners or both; every third additionally holds bystanders whose names begin with a namespace name: /ab/keep, /a-old, /a/ab), materialised on a fresh Memfs; x every ordered (src,dst) pair of 12 paths (the namespace, root, missing names, a missing parent, deeper-than-namespace) x {copy, copy+chmod_all, +chmod_dirs, +chmod_files, +follow, move_p, chmod_files-then-chmod_all, chmod_all-then-chmod_dirs (the later option replaces the earlier)}. quick: a seeded 1/3 of the trees, thorough: all (3.5 M cases); a seeded 1/40 (quick) / 1/12 (thorough) of the cases whose arguments do not pass through a link also runs through Stdfs on a tmpfs copy of the tree (materialised and observed with std::fs), same predicates. Oracle: postcondition predicates on the dump before/after (DESIGN section 4 C09): source untouched, every source entry has a copy at the same relative path with same kind/bytes/link target, new entries carry the source mode unless the chmod option selects their kind, existing entries kept, nothing outside the destination changes (except created ancestors); move: source gone, destination == former subtree (modes, owners, bytes, link text; relative links resolve from the new location), rest unchanged, failed move changes nothing; C03 invariants; call returns. Non-trivial = src exists and (dst exists or src/dst nested or an option is set); distinct by (tree, src, dst, variant).");
     c.assume("copy with follow on a source containing links: only frame conditions are asserted (placement undocumented)");
     let trees = all_trees();
     let paths = arg_paths();
